@@ -108,6 +108,13 @@ def run_property(prop, mod, tier, only=None):
         else:
             inconclusive.append("counterexample of %s did not reproduce natively: %s" % (r.id, rep.get("detail")))
 
+    extra_cov = {}
+    if hasattr(mod, "extra_pass") and not only:
+        x = mod.extra_pass(tier, kf)
+        violations += x["violations"]
+        known_lines += x["known"]
+        inconclusive += x["inconclusive"]
+        extra_cov = x["coverage"]
     wall = time.time() - t0
     # ---------------------------------------------------------------- evidence
     desc = getattr(mod, "DESCRIPTION", {})
@@ -156,6 +163,7 @@ def run_property(prop, mod, tier, only=None):
                          "solver_s": round(r.solver_s, 4), "wall_ms": r.wall_ms,
                          "witnesses": "%d/%d" % (r.covers_satisfied, r.harness.covers)} for r in kc.results],
     }
+    coverage.update(extra_cov)
     assumptions = list(getattr(mod, "ASSUMPTIONS", [])) + [
         "Kani 0.68 / CBMC 6.11 model Rust semantics faithfully for the generated code (default checks on: memory "
         "safety, arithmetic overflow, unwinding assertions)",
@@ -184,6 +192,10 @@ def run_property(prop, mod, tier, only=None):
 
 def replay_file(prop, path):
     """./check <P> --replay <file>: rebuild the single shape with its playback test and run it natively."""
+    if path.endswith(".json"):
+        import importlib
+        m = importlib.import_module("vf.props." + prop.lower())
+        return m.replay_json(path)
     src = open(path).read()
     d = common.scratch_dir(prop + "-replay")
     from .kani import CARGO_TOML
